@@ -561,11 +561,15 @@ func makeMarginBoxes(context *layoutContext, page *bo.PageBox, state tree.PageSt
 // Layout a margin box’s content once the box has dimensions.
 func marginBoxContentLayout(context *layoutContext, mBox *bo.MarginBox) Box {
 	var positionedBoxes []*AbsolutePlaceholder
+	// forced breaks and page names inside a margin box (a running element with children) do not apply
+	context.inMarginBox = true
 	newBox_, tmp, _ := blockContainerLayout(context, mBox, -pr.Inf, nil, true,
 		&positionedBoxes, &positionedBoxes, new([]pr.Float), false, -1)
+	context.inMarginBox = false
 
 	if tmp.resumeAt != nil {
-		panic(fmt.Sprintf("resumeAt should be nil, got %v", tmp.resumeAt))
+		// a margin box is not fragmented: what does not fit (multi-column content…) is not continued
+		logger.WarningLogger.Printf("the content of the %s margin box does not fit and is truncated", mBox.AtKeyword)
 	}
 
 	for _, absBox := range positionedBoxes {
